@@ -237,6 +237,69 @@ def run_metrize(case):
     return ["ok", leaf_durs(r), ["flags"] + sorted(set(flags))]
 
 
+def simpson(e, a, b, panels=32):
+    """composite Simpson integral of the implementation's own value_at, split at the control points"""
+    if a == b:
+        return ["ok", sf(0.0)]
+    lo, hi = min(a, b), max(a, b)
+    cuts = sorted(set([lo, hi] + [t for t in (ticks(x) for x in e.absolute_time_tuple) if lo < t < hi]))
+    total = 0.0
+    for u, v in zip(cuts, cuts[1:]):
+        n = panels
+        h = (v - u) / n
+        # evaluate just inside the piece at both ends so that a jump belongs to the right piece
+        xs = [u + i * h for i in range(n + 1)]
+        ys = []
+        for i, x in enumerate(xs):
+            xi = int(round(x))
+            if i == 0:
+                xi = u + 1 if u + 1 < v else u
+            if i == n:
+                xi = v - 1 if v - 1 > u else v
+            ys.append(float(e.value_at(xi / TICK)))
+        acc = ys[0] + ys[-1] + 4 * sum(ys[1:-1:2]) + 2 * sum(ys[2:-1:2])
+        total += acc * (h / TICK) / 3
+    return ["ok", sf(total if a < b else -total)]
+
+
+def grid_points(lo, hi, extra=(), n=40):
+    pts = set([lo, hi])
+    for i in range(n + 1):
+        pts.add(lo + (hi - lo) * i // n)
+    for x in extra:
+        if lo <= x <= hi:
+            pts.add(x)
+    return sorted(pts)
+
+
+def op_grid(orig, r, op):
+    """(x, value of the result at x, value of the untouched original at the corresponding time)"""
+    ot = [ticks(x) for x in orig.absolute_time_tuple]
+    od = ticks(orig.duration)
+    k = op[0]
+    rows = []
+
+    def add(res, x, xo):
+        rows.append([x, sf(res.value_at(x / TICK)), sf(orig.value_at(xo / TICK))])
+
+    if k in ("sample_at", "extend_until"):
+        t = int(op[1])
+        hi = max(od, t) + 2500000000
+        for x in grid_points(-1, hi, ot + [t, t - 1, t + 1]):
+            add(r, x, x)
+    elif k == "cut_out":
+        s_, e_ = int(op[1]), int(op[2])
+        for x in grid_points(0, e_ - s_, [y - s_ for y in ot]):
+            add(r, x, s_ + x)
+    elif k == "cut_off":
+        s_, e_ = int(op[1]), int(op[2])
+        for x in grid_points(0, max(od - (e_ - s_), s_) + 2500000000, ot + [y - (e_ - s_) for y in ot] + [s_ - 1, s_ + 1]):
+            if x == s_:
+                continue  # the cut itself is a jump
+            add(r, x, x if x < s_ else x + (e_ - s_))
+    return rows
+
+
 def run(case):
     k = case[0]
     if k == "envq":
@@ -244,12 +307,22 @@ def run(case):
         before = snap(e)
         out = ["envq"]
         changed = None
+        stale = None
         for i, q in enumerate(case[2:]):
-            out.append(query(e, q))
+            if q[0] == "simpson":
+                out.append(simpson(build(case[1]), int(q[1]), int(q[2])))
+                continue
+            a = query(e, q)
+            out.append(a)
             if changed is None and snap(e) != before:
                 changed = ["changed-after", i, snap(e)]
+            # the same question asked of an untouched copy
+            if stale is None and query(build(case[1]), q) != a:
+                stale = ["differs-from-fresh-copy", i, query(build(case[1]), q)]
         if changed:
             out.append(changed)
+        if stale:
+            out.append(stale)
         return out
     if k == "envop":
         e = build(case[1])
@@ -270,12 +343,24 @@ def run(case):
                 out = ["ok", ["parts"] + [snap(p) for p in parts]]
                 if snap(e) != before:
                     out.append(["recv-changed", snap(e)])
+                # every part against the original: value at offset x == original value at part start + x
+                cuts = sorted(set([0] + [int(x) for x in op[2:]]))
+                rows = []
+                start = 0
+                orig = build(case[1])
+                for part in parts:
+                    d = ticks(part.duration)
+                    pt = [ticks(x) for x in part.absolute_time_tuple]
+                    for x in grid_points(0, d, pt, n=12):
+                        rows.append([start + x, sf(part.value_at(x / TICK)), sf(orig.value_at((start + x) / TICK))])
+                    start += d
+                out.append(["grid"] + rows)
                 return out
             else:
                 raise ValueError(op)
         except Exception as exc:  # noqa
             return err(exc)
-        return ["ok", snap(r)]
+        return ["ok", snap(r), ["grid"] + op_grid(build(case[1]), r, op)]
     if k == "of_points":
         pts = [[int(p[0]) / TICK, num(p[1]), num(p[2])] for p in case[1]]
         return snap(ce.Envelope(pts))
